@@ -24,7 +24,8 @@
 //   - listed known findings are excluded in the comparison and nowhere else:
 //     Case.Modulo names the canonicalisations the judge may apply (entry order
 //     of thrift maps inside the embedded reflection descriptor / inside the
-//     plugin request).  Witness files carry no Modulo and are judged strictly.
+//     plugin request; order of the import lines of fastgo's k-*.go files under
+//     no_fmt).  Witness files carry no Modulo and are judged strictly.
 package c07
 
 import (
@@ -65,6 +66,7 @@ const (
 	// the canonicalisations a case may allow
 	fReflDesc = "reflection-descriptor-map-order"
 	fPlugReq  = "plugin-request-map-order"
+	fFastImp  = "fastgo-nofmt-import-order"
 )
 
 type runCase struct {
@@ -98,6 +100,8 @@ type verdict struct {
 	Files       int // files in the (first) output tree
 	EmbedsOut   bool
 	MaskedDescs int // descriptor literals that could not be decoded and were left out of the comparison
+	Millis      int64  // time spent in thriftgo processes
+	Reject      string // last line of the output of a rejected program
 }
 
 // ---------- recorder plugin ----------
@@ -289,6 +293,26 @@ func canonReflection(src []byte) (res []byte, ok bool) {
 	return res, ok
 }
 
+var importBlock = regexp.MustCompile(`(?s)\nimport \(\n(.*?)\n\)\n`)
+
+// canonImports sorts the lines of the first import block of a Go file inside
+// each group (groups are separated by empty lines).
+func canonImports(src []byte) []byte {
+	loc := importBlock.FindSubmatchIndex(src)
+	if loc == nil {
+		return src
+	}
+	groups := strings.Split(string(src[loc[2]:loc[3]]), "\n\n")
+	for i, g := range groups {
+		ls := strings.Split(g, "\n")
+		sort.Strings(ls)
+		groups[i] = strings.Join(ls, "\n")
+	}
+	res := append([]byte{}, src[:loc[2]]...)
+	res = append(res, strings.Join(groups, "\n\n")...)
+	return append(res, src[loc[3]:]...)
+}
+
 // ---------- the judge ----------
 
 var outNames = []string{"out", "o2", "a-much-longer-output-directory-name"}
@@ -361,6 +385,11 @@ func judge(c runCase) (verdict, error) {
 		args = append(args, "-o", out, c.Main)
 		r := tg.Exec(bin, idlDir, env, 60*time.Second, args...)
 		v.Runs++
+		v.Millis += r.Dur.Milliseconds()
+		if r.Exit != 0 && v.Reject == "" {
+			ls := strings.Split(strings.TrimSpace(r.Output), "\n")
+			v.Reject = vt.Truncate(ls[len(ls)-1], 200)
+		}
 		if r.TimedOut {
 			v.Status = stTimeout
 			return v, nil
@@ -386,6 +415,9 @@ func judge(c runCase) (verdict, error) {
 					if b, ok = canonReflection(b); !ok {
 						v.MaskedDescs++
 					}
+				}
+				if c.modulo(fFastImp) && strings.HasPrefix(filepath.Base(rel), "k-") && strings.HasSuffix(rel, ".go") {
+					b = canonImports(b)
 				}
 				s.files[rel] = b
 			}
@@ -501,11 +533,31 @@ func lineDiff(a, b []byte) string {
 	if i > 0 {
 		fmt.Fprintf(&m, "    %s\n", vt.Truncate(la[i-1], 160))
 	}
+	// a long line (a canonical descriptor) is shown around its first differing column
+	col := 0
+	if i < len(la) && i < len(lb) {
+		for col < len(la[i]) && col < len(lb[i]) && la[i][col] == lb[i][col] {
+			col++
+		}
+	}
+	win := func(l string, first bool) string {
+		if !first || len(l) <= 160 {
+			return vt.Truncate(l, 160)
+		}
+		lo, hi := col-60, col+100
+		if lo < 0 {
+			lo = 0
+		}
+		if hi > len(l) {
+			hi = len(l)
+		}
+		return fmt.Sprintf("...(column %d) %s...", lo+1, l[lo:hi])
+	}
 	for j := i; j < i+3 && j < len(la); j++ {
-		fmt.Fprintf(&m, "  - %s\n", vt.Truncate(la[j], 160))
+		fmt.Fprintf(&m, "  - %s\n", win(la[j], j == i))
 	}
 	for j := i; j < i+3 && j < len(lb); j++ {
-		fmt.Fprintf(&m, "  + %s\n", vt.Truncate(lb[j], 160))
+		fmt.Fprintf(&m, "  + %s\n", win(lb[j], j == i))
 	}
 	return m.String()
 }
@@ -850,10 +902,10 @@ func TestDeterministic(t *testing.T) {
 		if recurse {
 			c.Args = append(c.Args, "-r")
 		}
-		switch rapid.IntRange(0, 7).Draw(rt, "plugin") {
-		case 0:
+		switch rapid.IntRange(0, 9).Draw(rt, "plugin") { // rapid favours small values: the plugin cases sit at the far end
+		case 8:
 			c.Plugin = "record"
-		case 1:
+		case 9:
 			c.Plugin = "patch"
 		}
 		// development aid for producing small witnesses: VERIF_C07_ONLY=reflection|plugin
@@ -868,6 +920,10 @@ func TestDeterministic(t *testing.T) {
 			c.Modulo = append(c.Modulo, fReflDesc)
 			vt.Excluded(fReflDesc)
 		}
+		if backend == "fastgo" && optOn(opts, "no_fmt") && vt.Known(prop, fFastImp) {
+			c.Modulo = append(c.Modulo, fFastImp)
+			vt.Excluded(fFastImp)
+		}
 		if c.Plugin != "" && vt.Known(prop, fPlugReq) {
 			c.Modulo = append(c.Modulo, fPlugReq)
 			vt.Excluded(fPlugReq)
@@ -876,6 +932,10 @@ func TestDeterministic(t *testing.T) {
 		vt.Eval()
 		v, err := judge(c)
 		vt.ClassN("thriftgo_runs", int64(v.Runs))
+		vt.ClassN("thriftgo_ms", v.Millis)
+		if os.Getenv("VERIF_SURVEY") != "" && v.Status == stRejected {
+			fmt.Fprintf(os.Stderr, "SURVEY rejected | %s | %s\n", strings.Join(c.Args, " "), v.Reject)
+		}
 		if v.Status != "" {
 			vt.Class("status:" + v.Status)
 		}
